@@ -12,7 +12,7 @@ echo "$OUT" | grep -A1 "demo on patched" | grep -q "exit=[1-9]" || { echo "REJEC
 echo "$OUT" | grep -A1 "existing suite" | grep -q "exit=0" || { echo "REJECT: existing suite fails with the patch"; exit 1; }
 # the formal run: against /repo itself
 git -C /repo diff --quiet || { echo "/repo not clean"; exit 2; }
-git -C /repo apply $SRC/patch.diff || (cd /repo && patch -p1 -s < $SRC/patch.diff) || { echo "apply failed"; git -C /repo checkout -- .; exit 2; }
+git -C /repo apply $SRC/patch.diff || (cd /repo && patch -p1 -s --no-backup-if-mismatch < $SRC/patch.diff) || { echo "apply failed"; git -C /repo checkout -- .; exit 2; }
 mkdir -p /tmp/keepseed.$$ ; cp /verif/known_findings.json /tmp/keepseed.$$/
 RES=$(/verif/bin/xmppcheck -property $PROP -verif /tmp/keepseed.$$ 2>&1); RC=$?
 git -C /repo checkout -- .
